@@ -457,6 +457,38 @@ def main():
                 ops.insert(rng.randrange(len(ops)), refused_op(sz, f, rng.choice([1, 2, 3])))
             ops.append(healthy_op(sz, g, 1))
             hists.append((sz, f, ops, "random"))
+    # ---- several goroutines of one process, each on a record file of its own (op 16; validation only): concurrent requests on
+    # different boards. The driver takes the answer every history gives alone (status, code and whole file after each step),
+    # then runs them all at once, again and again: every answer must be the sequential one. (An implementation that stages a
+    # record or an offset in package-level state passes every sequential history.) Healthy steps only.
+    conc_lines = []
+    for _ in range(30 if thorough else 6):
+        parts, ns = [], []
+        for sz in rng.sample(sorted(STRIDES), len(STRIDES)):
+            f = new_file(sz, rng.choice([0, 1, 3, 5]))
+            ops, g = [], list(f)
+            for step in range(rng.randrange(4, 10)):
+                ops.append(healthy_op(sz, g, rng.choice([1, 1, 2, 3] + ([4, 4] if sz == 128 else []))))
+                g = hist_expect(sz, g, [ops[-1]])[-1][2]
+            hline = hist_line(sz, f, ops)
+            ns.append(len(hline.split("|")))
+            parts.append(hline)
+        conc_lines.append("16 %d %s|" % (1500 if thorough else 400, " ".join(map(str, ns))) + "|".join(parts))
+    conc_out = vf.run_impl(impl, "C05", conc_lines, deadline_ms=120000)
+    c.count(len(conc_lines), "concurrent batches (one goroutine per record file)")
+    for line, o in zip(conc_lines, conc_out):
+        t = o.split()
+        if t[:1] == ["7"]:
+            continue
+        if t[:1] != ["0"]:
+            c.violation("concurrent-files-status", "histories on different record files by goroutines of one process: the driver ends with status %s" % " ".join(t[:2]), {"cases": [line], "expected": "0 0 -1 -1", "got": o[:300]})
+        elif t[1] != "0":
+            c.violation("concurrent-files-differ", "operations on %d DIFFERENT record files by %d goroutines of one process at once: %s of the histories' answers (status, returned index, whole file after every step) "
+                        "are not what the same history answers alone (first: goroutine %s, round %s)" % (len(line.split("|")[0].split()) - 2, len(line.split("|")[0].split()) - 2, t[1], t[2], t[3]),
+                        {"cases": [line], "expected": "0 0 -1 -1", "got": o[:300]})
+        else:
+            c.nontrivial(("conc-files", line[:50]))
+
     hl = [hist_line(sz, f, ops) for (sz, f, ops, _) in hists]
     ho = both(hl, "histories with refused writes (one process)")
     c.count(len(hl), "histories with refused writes")
@@ -615,7 +647,7 @@ def main():
 
     c.finish(rule="sequences: PRNG(seed) mixes of append/substitute/delete/count (+modify/read for .DIR) on files of 0-5 records with optional torn tail, indices from {first,last,random,count,beyond,negative}, stepped with whole-file comparison; "
                   "enumerations: index -2..6 x {substitute, delete} x 4 strides, all GetRecords windows on 0..4 records, torn tails at every byte; long windows: n around 4096 / 2^k+1 / count on generated files of 5 000 and 70 000 records (thorough: 300 000, 1 000 000), starts first/last/(count-4096)/random, both directions; refused writes: every (refused op, next op) pair per stride + PRNG(seed) histories with refused ops at random positions; sparse: per stride the slots around byte offsets 2^31 / 2^32 / 2^33, index 2^23 / 2^24 / 2^24+1 / 2^25 / 2^31-8 and PRNG(seed) ones x {substitute, delete inside and beyond a small file, append aligned / torn, count, .DIR: read asc/desc, modify stored/stale/beyond}; non-trivial = distinct (stride, operation, index class, option mix, result class) or distinct enumerated point",
-             assumptions=["the kernel writes the bytes it is given at the offset it is given (pwrite semantics incl. zero-filled holes are part of the model, observed, not verified)",
+             assumptions=["concurrent requests on different files (op 16): that the record-file operations share no state between goroutines of one process is validated by a parallel run (one goroutine per file, every answer must be the one the history gives alone), not proved; a fixed number of overlapping calls finds state that is held across a system call (tried: the record staged in a package-level variable) but can miss a window of two adjacent statements (tried: the offset staged that way was not seen); on code without shared state no schedule can produce a differing answer, so the clean verdict cannot flip", "the kernel writes the bytes it is given at the offset it is given (pwrite semantics incl. zero-filled holes are part of the model, observed, not verified)",
                           "locks (flock, range lock) are not part of this property; single-process runs",
                           "the delete tag is read from the build (ptttype.FN_SAFEDEL, a configurable string) and fed to the model",
                           "long windows: the file is generated from (count, seed) by the same rule in the driver and in the check (sha256 stream); contents are compared by a sha256 digest over (index, 128 record bytes) of everything returned, index lists literally; n is kept <= count+1 (make([]T,0,n) with n in the billions is an allocation question, not this property)",
